@@ -98,6 +98,11 @@ func Materialise(base int, faults []string) string {
 			{ptr: "F2", wife: "I2", hasWife: true}}
 		people[1].fams = []string{"F1", "F2"}
 	}
+	if base == 3 { // a large file: the first base graph and 2600 more people
+		for i := 6; i <= 2605; i++ {
+			people = append(people, &indi{ptr: "I" + strconv.Itoa(i), given: "Given" + strconv.Itoa(i), sur: "Sur" + strconv.Itoa(i%97), sex: "M", birth: strconv.Itoa(1700 + i%200)})
+		}
+	}
 	sourceTitle := "Parish register"
 	for _, f := range FaultKinds {
 		if !has[f] {
@@ -380,7 +385,13 @@ func observe(bin string, c Case, id int) Obs {
 	os.WriteFile(file, []byte(text), 0644)
 	os.WriteFile(baseFile, []byte(Materialise(c.Base, nil)), 0644)
 	for _, cmd := range commandsFor(dir, file, baseFile) {
+		if c.Base == 3 && cmd.name != "warnings" && cmd.name != "diff-all-written-name" && cmd.name != "diff-jobs4" && cmd.name != "query-1" {
+			continue // the large file: the commands whose cost is not quadratic
+		}
 		o.Runs = append(o.Runs, execute(bin, cmd))
+	}
+	if c.Base == 3 {
+		o.Text = "(the large file: base graph 1 and 2600 more individuals)"
 	}
 	return o
 }
@@ -434,6 +445,8 @@ func Seeded(w io.Writer, seed int64, n int) error {
 	enc := json.NewEncoder(w)
 	enc.Encode(Case{Base: 1, Faults: FaultKinds})
 	enc.Encode(Case{Base: 2, Faults: FaultKinds})
+	enc.Encode(Case{Base: 3, Faults: []string{}})
+	enc.Encode(Case{Base: 3, Faults: []string{"no-name", "husb-missing", "date-garbage"}})
 	for i := 0; i < n; i++ {
 		k := 3 + rng.Intn(6)
 		perm := rng.Perm(len(FaultKinds))
